@@ -267,6 +267,108 @@ func enumC11(R *vlib.Out, maxLen, maxTok int) {
 	if !stop {
 		enumFramingOrders(R, &stop)
 	}
+	if !stop {
+		enumTypedValues(R, &stop)
+	}
+}
+
+// c11AllTargets: the targets of families (i)-(iv) plus the remaining generated message types (family (v), replay).
+func c11AllTargets() []c11Target {
+	ts := c11Targets()
+	have := map[string]bool{}
+	for _, t := range ts {
+		have[t.name] = true
+	}
+	for _, n := range genNames {
+		if !have[n] {
+			ts = append(ts, c11Target{n, genCtors[n], nil})
+		}
+	}
+	return ts
+}
+
+var c11OddValues = []string{"", " ", "Y", "N", "y", "YY", "-", "+", ".", "-.", "1e5", "0x1F", "1_000", "NaN", "Inf", "-0", "0", "1",
+	"99999999999999999999", "-9223372036854775808", "20240101", "20240101-25:61:61", "20240101-10:00:00", "20240101-10:00:00.123456789",
+	"\x00", "=", "\xc3\xa9", "\xff", strings.Repeat("9", 300)}
+
+// enumTypedValues is family (v): every field of every template (header, body, trailer; in components and in
+// group entries at every depth), one at a time, carrying every value of a set of odd values - empty, a lone
+// sign, one byte, over-long digits, half a timestamp - inside the smallest group context that makes the decoder
+// reach it, correctly framed.  Group counts get the same values.  (Each value type has its own FromBytes; a
+// message a peer sends decides which of them sees which bytes.)
+func enumTypedValues(R *vlib.Out, stop *bool) {
+	n := 0
+	for ti, tg := range c11AllTargets() {
+		m := tg.mk()
+		mt := m.MsgType()
+		try := func(kind, typ, body string, vi int) {
+			n++
+			if *stop || !vlib.Mine(n+ti) {
+				return
+			}
+			if n%512 == 0 && vlib.Expired() {
+				R.Cap("deadline")
+				*stop = true
+				return
+			}
+			msg := frame("35=" + mt + "\x01" + body)
+			c11One(R, tg, msg)
+			R.ClassD(fmt.Sprintf("typed-value/%s/%s/%s/%d", tg.name, kind, typ, vi))
+			if vi == 0 {
+				R.Sample(6, map[string]string{"target": tg.name, "typed_value": vlib.Show(msg)})
+			}
+		}
+		var firstLeaf func(ns []*node) *node
+		firstLeaf = func(ns []*node) *node {
+			for _, x := range ns {
+				switch x.Kind {
+				case 'k':
+					return x
+				case 'c':
+					if f := firstLeaf(x.Kids); f != nil {
+						return f
+					}
+				case 'g':
+					return nil
+				}
+			}
+			return nil
+		}
+		var walk func(ns []*node, ctx string, first *node)
+		walk = func(ns []*node, ctx string, first *node) {
+			for _, x := range ns {
+				switch x.Kind {
+				case 'k':
+					for vi, v := range c11OddValues {
+						if first != nil && first != x {
+							try("field", x.Typ, ctx+first.Tag+"=1\x01"+x.Tag+"="+v+"\x01", vi)
+							// the same in the second of two entries
+							try("field-2nd-entry", x.Typ, strings.Replace(ctx, "=1\x01", "=2\x01", 1)+first.Tag+"=1\x01"+first.Tag+"=1\x01"+x.Tag+"="+v+"\x01", vi)
+						} else {
+							try("field", x.Typ, ctx+x.Tag+"="+v+"\x01", vi)
+						}
+					}
+				case 'c':
+					walk(x.Kids, ctx, first)
+				case 'g':
+					f := firstLeaf(x.Kids)
+					pre := ctx
+					if first != nil {
+						pre += first.Tag + "=1\x01"
+					}
+					if f != nil {
+						for vi, v := range c11OddValues {
+							try("count", "group", pre+x.Tag+"="+v+"\x01"+f.Tag+"=1\x01", vi)
+						}
+					}
+					walk(x.Kids, pre+x.Tag+"=1\x01", f)
+				}
+			}
+		}
+		walk(derive(m.Header().Items()), "", nil)
+		walk(derive(m.Body()), "", nil)
+		walk(derive(m.Trailer().Items()), "", nil)
+	}
 }
 
 // enumFramingOrders is family (iv): the framing fields themselves in every order and with impossible
@@ -511,7 +613,7 @@ func replayC11(R *vlib.Out) {
 		c11Lookup(R, rp.Input, rp.Target[11:])
 		return
 	}
-	for _, tg := range c11Targets() {
+	for _, tg := range c11AllTargets() {
 		if tg.name == rp.Target {
 			c11One(R, tg, rp.Input)
 		}
